@@ -77,6 +77,27 @@ def check_fields(scratch: Path) -> List[Dict[str, Any]]:
     return out
 
 
+OVERLOAD_SRC = ("from typing import overload\nclass C:\n    @overload\n    def f(self, a: int) -> int: ...\n    @overload\n    def f(self, a: str) -> str: ...\n"
+                "    x = 1\n    def f(self, a):\n        'doc of f'\n    y = 2\n    def g(self):\n        'doc of g'\n"
+                "@overload\ndef h(a: int) -> int: ...\nz = 3\ndef h(a):\n    'doc of h'\n")
+
+
+def check_overload_neighbours(scratch: Path) -> List[Dict[str, Any]]:
+    """A variable assigned just before a function definition has no docstring (a string in the function body documents the function)."""
+    b = P.build_sources(texts=[("ovm", OVERLOAD_SRC)], record_states=False)
+    out: List[Dict[str, Any]] = []
+    for name in ("ovm.C.x", "ovm.C.y", "ovm.z"):
+        o = b["system"].allobjects.get(name)
+        if o is None or o.docstring is not None:
+            out.append({"object": name, "expected": None, "what": "docstring of a variable assigned before a function definition",
+                        "got": None if o is None else o.docstring})
+    for name, doc in (("ovm.C.f", "doc of f"), ("ovm.C.g", "doc of g"), ("ovm.h", "doc of h")):
+        o = b["system"].allobjects.get(name)
+        if o is None or o.docstring != doc:
+            out.append({"object": name, "expected": doc, "what": "docstring in the model", "got": None if o is None else o.docstring})
+    return out
+
+
 def rendered_text(obj: Any) -> str:
     """The text of the docstring as the pages show it (parsed docstring -> stan -> flattened, tags removed)."""
     import re
@@ -111,4 +132,4 @@ def check(scratch: Path) -> List[Dict[str, Any]]:
             shown = rendered_text(o)
             if doc not in shown:
                 out.append({"object": name, "expected": doc, "got": shown[:200], "what": "docstring as rendered"})
-    return out + check_fields(scratch)
+    return out + check_fields(scratch) + check_overload_neighbours(scratch)
